@@ -699,8 +699,10 @@ ROOT_LAYOUTS = [
     [["w0", "uavcan"], ["w0", "beta"]],
     [["w0", "alpha"], ["w0", "beta"], ["w1", "alpha"]],
 ]
-SUBS = [[], [], ["x"], ["y"], ["x", "z"], ["x", "y", "deep"]]
-SHORTS = ["A", "B", "C", "D", "E", "F", "Msg", "Thing"]
+# namespace components that sort between type names and type names that sort after namespace components are included:
+# the result order is by FULL name, which differs from (namespace, short name) order exactly in such trees
+SUBS = [[], [], ["x"], ["y"], ["x", "z"], ["x", "y", "deep"], ["Bz"], ["Cx", "y"]]
+SHORTS = ["A", "B", "C", "D", "E", "F", "Msg", "Thing", "zed", "m_t"]
 VERSIONS = [(1, 0), (1, 0), (1, 1), (0, 1), (2, 0), (1, 2), (0, 3), (2, 5)]
 
 
@@ -855,7 +857,7 @@ def gen_graph(rng: random.Random, prop: str) -> dict:
         f = files[j]
         p = parse_strict(f["fname"])
         files.append({"dir": f["dir"], "sub": f["sub"], "fname": fname_of(swap_case(p[1]), p[2], p[3]), "text": mk_text([["prim", 8]], ["sealed"])})
-    elif x < 0.12:  # the same name and version in a second directory of the same root namespace name
+    elif x < (0.25 if prop == "C09" else 0.12):  # the same name and version in a second directory of the same root namespace name
         same = [(a, b) for a in layout for b in layout if a != b and a[-1] == b[-1]]
         if same:
             a, b = rng.choice(same)
@@ -863,6 +865,9 @@ def gen_graph(rng: random.Random, prop: str) -> dict:
             if mine:
                 f = rng.choice(mine)
                 p = parse_strict(f["fname"])
+                if rng.random() < 0.4 and f["text"] is not None and not f["text"].get("g"):
+                    # ... of a definition that refers to itself: the twin must not make the self-reference resolvable
+                    f["text"]["secs"][0]["stmts"].append(["ref", rng.choice([p[1], ".".join([f["dir"][-1]] + f["sub"] + [p[1]])]), p[2], p[3]])
                 if not any(g["dir"] == b and g["sub"] == f["sub"] and parse_strict(g["fname"])[1:] == p[1:] for g in files):
                     files.append({"dir": b, "sub": f["sub"], "fname": fname_of(p[1], p[2], p[3]), "text": mk_text([["prim", 16], ["print", 990]], ["sealed"])})
     elif x < 0.135 and prop in ("C10",):  # finding F9: two files of one directory with the same name and version
